@@ -201,6 +201,7 @@ impl Property for C12 {
             "width_ge_8192",
             "output_activation_reset",
             "snapshot_network",
+            "near_duplicate_neighbours",
             "predict_batch_from_parallel_tasks",
         ]
     }
@@ -220,8 +221,25 @@ impl Property for C12 {
         let size = |rng: &mut Rng| if wide { rng.range(60, 130) } else { eval_size(rng) };
         let m_eval = size(rng);
         let m_pred = if rng.chance(0.8) { size(rng) } else { 0 };
-        let xs: Vec<Vec<f32>> = (0..m_eval).map(|_| gen_input(rng, &net)).collect();
-        let pred: Vec<Vec<f32>> = (0..m_pred).map(|_| gen_input(rng, &net)).collect();
+        let mut xs: Vec<Vec<f32>> = (0..m_eval).map(|_| gen_input(rng, &net)).collect();
+        let mut pred: Vec<Vec<f32>> = (0..m_pred).map(|_| gen_input(rng, &net)).collect();
+        // now and then runs of (near-)duplicate neighbours: a finely sampled sweep, a padded
+        // batch - each input still has its own prediction, however close it is to the previous
+        let near_duplicates = rng.chance(0.12);
+        if near_duplicates {
+            for set in [&mut xs, &mut pred] {
+                for i in 1..set.len() {
+                    match rng.below(4) {
+                        0 => set[i] = set[i - 1].clone(),
+                        1 | 2 => {
+                            let d = rng.pick(&[1e-6f32, 3e-6, 1e-7]);
+                            set[i] = set[i - 1].iter().map(|v| v + d * (rng.uniform(-1.0, 1.0))).collect();
+                        }
+                        _ => {}
+                    }
+                }
+            }
+        }
         // one case in three first trains the network (possibly stopping early), so the
         // aggregations are compared in the state an earlier call left behind
         let pre = if rng.chance(0.33) {
@@ -305,6 +323,7 @@ impl Property for C12 {
         stats.probe("width_ge_8192", case.net.shapes().map(|v| v.iter().any(|s| s.count() >= 8192)).unwrap_or(false));
         stats.probe("output_activation_reset", case.net.built_last_act.is_some());
         stats.probe("snapshot_network", case.snapshot);
+        stats.probe("near_duplicate_neighbours", case.pred.windows(2).any(|w| w[0] != w[1] && w[0].iter().zip(w[1].iter()).all(|(a, b)| (a - b).abs() < 1e-5)));
         stats.probe("predict_batch_from_parallel_tasks", case.shared_calls >= 2 && !case.pred.is_empty());
         stats.probe("after_training_history", case.pre.is_some());
         stats.probe("after_training_with_dropout", case.pre.is_some() && case.net.has_dropout());
